@@ -1,0 +1,74 @@
+//! Verification hooks, only compiled with the cargo feature `verif_hooks` (off by default).
+//!
+//! Nothing in here changes the behaviour of the crate. The hooks expose
+//! counters of the encodation planner and the ECI spans computed by the data
+//! decoder, so that an external monitor can observe them.
+extern crate std;
+
+use alloc::vec::Vec;
+use core::cell::RefCell;
+
+use crate::data::DataDecodingError;
+
+/// Counters of the calls to the encodation planner made on this thread
+/// since the last call to [take_planner_stats].
+#[derive(Clone, Debug, Default, PartialEq, Eq)]
+pub struct PlannerStats {
+    /// Number of planner invocations.
+    pub calls: u64,
+    /// Number of `Plan::step` invocations (all planner invocations).
+    pub steps: u64,
+    /// Number of iterations of the main loop (all planner invocations).
+    pub iterations: u64,
+    /// Maximum number of candidate plans alive after pruning, over all iterations.
+    pub max_live: usize,
+    /// Maximum number of candidate plans before pruning, over all iterations.
+    pub max_before_prune: usize,
+    /// Input length of the last planner invocation.
+    pub input_len: usize,
+    /// Codewords already written when the last planner invocation was started.
+    pub written: usize,
+    /// Cost of the plan selected by the last planner invocation in 1/12 codewords, if one was selected.
+    pub selected_cost_twelfths: Option<u32>,
+}
+
+std::thread_local! {
+    static STATS: RefCell<PlannerStats> = RefCell::new(PlannerStats::default());
+}
+
+/// Return the planner counters of this thread and reset them.
+pub fn take_planner_stats() -> PlannerStats {
+    STATS.with(|s| core::mem::take(&mut *s.borrow_mut()))
+}
+
+/// Decode data codewords, returning the raw bytes and the `(output offset, ECI number)` list.
+pub fn decode_eci_spans(data: &[u8]) -> Result<(Vec<u8>, Vec<(usize, u32)>), DataDecodingError> {
+    crate::decodation::decode_with_eci_spans(data)
+}
+
+pub(crate) fn begin_optimize(input_len: usize, written: usize) {
+    STATS.with(|s| {
+        let mut s = s.borrow_mut();
+        s.calls += 1;
+        s.input_len = input_len;
+        s.written = written;
+        s.selected_cost_twelfths = None;
+    });
+}
+
+pub(crate) fn count_step() {
+    STATS.with(|s| s.borrow_mut().steps += 1);
+}
+
+pub(crate) fn end_iteration(before_prune: usize, after_prune: usize) {
+    STATS.with(|s| {
+        let mut s = s.borrow_mut();
+        s.iterations += 1;
+        s.max_before_prune = s.max_before_prune.max(before_prune);
+        s.max_live = s.max_live.max(after_prune);
+    });
+}
+
+pub(crate) fn selected_plan(cost_twelfths: u32) {
+    STATS.with(|s| s.borrow_mut().selected_cost_twelfths = Some(cost_twelfths));
+}
